@@ -6,21 +6,21 @@ pub open spec fn bw_wf(w: BitWriter) -> bool {
     w.bits_in < 8 && (w.bit_buffer as nat) < vstd::arithmetic::power2::pow2(w.bits_in as nat)
 }
 
-spec fn hw_wf(hw: HuffmanWriter) -> bool {
-    &&& hw.lit_code_lengths@.len() >= 286 && hw.lit_huffman_codes@.len() == hw.lit_code_lengths@.len()
-    &&& hw.dist_code_lengths@.len() >= 30 && hw.dist_huffman_codes@.len() == hw.dist_code_lengths@.len()
+pub open spec fn hw_wf(hw: HuffmanWriter) -> bool {
+    &&& hw.lit_huffman_codes@.len() == hw.lit_code_lengths@.len()
+    &&& hw.dist_huffman_codes@.len() == hw.dist_code_lengths@.len()
     &&& forall|s: int| 0 <= s < hw.lit_code_lengths@.len() ==> hw.lit_code_lengths@[s] <= 15
             && (hw.lit_huffman_codes@[s] as nat) < vstd::arithmetic::power2::pow2(#[trigger] hw.lit_code_lengths@[s] as nat)
     &&& forall|s: int| 0 <= s < hw.dist_code_lengths@.len() ==> hw.dist_code_lengths@[s] <= 15
             && (hw.dist_huffman_codes@[s] as nat) < vstd::arithmetic::power2::pow2(#[trigger] hw.dist_code_lengths@[s] as nat)
 }
-spec fn lit_bits(hw: HuffmanWriter, s: int) -> Seq<bool> { lsb_bits(hw.lit_huffman_codes@[s] as nat, hw.lit_code_lengths@[s] as nat) }
-spec fn dist_bits(hw: HuffmanWriter, s: int) -> Seq<bool> { lsb_bits(hw.dist_huffman_codes@[s] as nat, hw.dist_code_lengths@[s] as nat) }
+pub open spec fn lit_bits(hw: HuffmanWriter, s: int) -> Seq<bool> { lsb_bits(hw.lit_huffman_codes@[s] as nat, hw.lit_code_lengths@[s] as nat) }
+pub open spec fn dist_bits(hw: HuffmanWriter, s: int) -> Seq<bool> { lsb_bits(hw.dist_huffman_codes@[s] as nat, hw.dist_code_lengths@[s] as nat) }
 
 /// RFC 1951 3.2.5: bits of one token. A reference is <length symbol> <length extra bits> <distance symbol> <distance
 /// extra bits>; the non-canonical form of length 258 is symbol 284 with all five extra bits set -- and the distance
 /// follows in BOTH forms.
-spec fn token_bits(hw: HuffmanWriter, t: PreflateToken) -> Seq<bool> {
+pub open spec fn token_bits(hw: HuffmanWriter, t: PreflateToken) -> Seq<bool> {
     match t {
         PreflateToken::Literal(l) => lit_bits(hw, l as int),
         PreflateToken::Reference(r) => {
@@ -34,9 +34,12 @@ spec fn token_bits(hw: HuffmanWriter, t: PreflateToken) -> Seq<bool> {
         }
     }
 }
-spec fn tokens_bits(hw: HuffmanWriter, ts: Seq<PreflateToken>) -> Seq<bool>
+pub open spec fn tokens_bits(hw: HuffmanWriter, ts: Seq<PreflateToken>) -> Seq<bool>
     decreases ts.len()
 {
     if ts.len() == 0 { Seq::<bool>::empty() } else { tokens_bits(hw, ts.drop_last()) + token_bits(hw, ts.last()) }
 }
 
+
+/// the code lengths of a writer, as a Codes value
+pub open spec fn hw_codes(hw: HuffmanWriter) -> Codes { Codes { ll: hw.lit_code_lengths@, dl: hw.dist_code_lengths@ } }
